@@ -1,4 +1,7 @@
 //@ include contracts/time_iface.rs
+// (own module: one solver context per module keeps this function's query small)
+pub mod iso_m {
+use super::*;
 impl ParseISO8601<DateTime<FixedOffset>> for DateTime<FixedOffset> {
 //@ fn chronoutil.rs impl ParseISO8601<DateTime<FixedOffset>> for DateTime<FixedOffset> :: parse_from_iso8601
 //@ hideutf8
@@ -115,3 +118,4 @@ impl ParseISO8601<DateTime<FixedOffset>> for DateTime<FixedOffset> {
             }
 //@ end
 }
+} // mod iso_m
